@@ -283,6 +283,19 @@ func genListener(emit func(string), tier string, rng *Rng) {
 					}
 				}
 				if cur != nil {
+					// the candidate key fields must respect the typed slot of the file type IN EFFECT (which is not
+					// always the one the list was generated for): an "opaque" field is never populated
+					if sl := slotOfInfo(cur, d.num); sl != nil {
+						if sl.m1 == "opaque" {
+							d.f1 = tsF{kind: '-'}
+						}
+						if sl.m253 == "opaque" {
+							d.f253 = tsF{kind: '-'}
+						}
+						if sl.m254 == "opaque" {
+							d.f4 = tsF{kind: '-'}
+						}
+					}
 					d.dg = soloDigest(&cur.ft, d)
 				} else {
 					d.dg = 0
